@@ -482,9 +482,14 @@ package keeper
 // which turns an honest member into one whose shares no longer match its commitments.
 //@ spec memberOf(s Store, g Int, a Str) types.Member uninterpreted
 //@ spec memberErr(s Store, g Int, a Str) Int uninterpreted
+// C14 / C18: the member looked up by address is a member record OF THE GROUP ASKED FOR (an account sits in several groups
+// after a rotation with the same operators: activation flags, pay-outs and time-out penalties must hit the membership in
+// that group, not the one in an older group), carrying that address; none found is an error.
 //@ func (k Keeper) GetMemberByAddress
-//@ trusted
-//@ ensures err == memberErr(Store_tss, groupID, address) && (err == nil ==> result == memberOf(Store_tss, groupID, address))
+//@ names err == memberErr(Store_tss, groupID, address) && (err == nil ==> result == memberOf(Store_tss, groupID, address))
+//@ ensures err == nil ==> result.Address == address && (exists q Bz :: has(Store_tss, q) && hasprefix(q, types.MembersStoreKey(groupID)) && result == dec(types.Member, Store_tss[q]))
+//@ ensures err != nil ==> !(exists q Bz :: has(Store_tss, q) && hasprefix(q, types.MembersStoreKey(groupID)) && dec(types.Member, Store_tss[q]).Address == address)
+//@ loop 0: invariant forall j :: 0 <= j && j < #i ==> members[j].Address != address
 //@ spec owes(s Store, g Int, m Int) Bool =
 //@      (groupAt(s, g).Status == types.GROUP_STATUS_ROUND_1 && !has(s, types.Round1InfoStoreKey(g, m)))
 //@   || (groupAt(s, g).Status == types.GROUP_STATUS_ROUND_2 && !has(s, types.Round2InfoStoreKey(g, m)))
@@ -517,3 +522,42 @@ package keeper
 //@ ensures err != nil ==> result == 0
 //@ ensures err == nil ==> has(Store_tss, types.SigningStoreKey(result)) && signingAt(Store_tss, result).CurrentAttempt == 1 && signingAt(Store_tss, result).Status == types.SIGNING_STATUS_WAITING
 //@ ensures err == nil ==> has(Store_tss, types.SigningAttemptStoreKey(result, 1))
+// C11: ... and only when the content handler produced the bytes to sign: a handler error (text too long, no result yet,
+// unknown encoder ...) fails the request instead of creating a signing over an empty content
+//@ ensures err == nil ==> fvresult(1) == nil
+
+// ---- C09: a committee is drawn from the members of ITS group -------------------------------------------------------------
+// Members are filed under (group id, member id) and a group's members are read back by the group-id prefix, so a group id
+// must never be handed out twice. The id of a new group is count+1: the imported counter therefore has to cover every
+// imported group id (a pruned/sparse id space included).
+//@ func (k Keeper) SetGroupGenesis
+//@ modifies Store_tss
+//@ ensures forall j :: 0 <= j && j < len(groups) ==> groups[j].ID <= groupCount(Store_tss)
+//@ loop 0: invariant forall j :: 0 <= j && j < #i ==> groups[j].ID <= maxGroupID
+
+// A group is created only from pairwise different accounts (two member ids for one account would let one participant, with
+// one queued nonce, fill two seats of a committee), at least one and at most MaxGroupSize of them.
+//@ func (k Keeper) CreateGroup
+//@ may_panic calls
+//@ modifies Store_tss
+//@ ensures err == nil ==> 1 <= len(members) && len(members) <= old(tssParams(Store_tss)).MaxGroupSize
+//@ ensures err == nil ==> (forall i Int, j Int :: 0 <= i && i < j && j < len(members) ==> members[i] != members[j])
+//@ loop 0: invariant forall j :: 0 <= j && j < #i ==> has(seenAddresses, addrstr(members[j])) && seenAddresses[addrstr(members[j])]
+//@ loop 0: invariant forall i Int, j Int :: 0 <= i && i < j && j < #i ==> members[i] != members[j]
+//@ loop 1: invariant true
+//@ loop 2: invariant true
+
+// ---- C04: who may complain --------------------------------------------------------------------------------------------
+// A complaint message is accepted only in round 3, only from the account of the member it names as complainant (the
+// member that is blamed when the complaint does not verify - so nobody can get a member marked malicious by complaining
+// in its name), and only once per member (no confirm, no earlier complaint); what it records is filed under that member.
+// (Preconditions: what MsgComplain.ValidateBasic guarantees, and the member store invariant.)
+//@ func (k msgServer) Complain
+//@ may_panic calls
+//@ modifies Store_tss
+//@ requires len(req.Complaints) >= 1 && (forall j :: 0 <= j && j < len(req.Complaints) ==> okComplaintIDs(req.Complaints[j]))
+//@ requires forall m Int :: wfMember(Store_tss, req.GroupID, m)
+//@ ensures err == nil ==> old(has(Store_tss, types.GroupStoreKey(req.GroupID))) && old(groupAt(Store_tss, req.GroupID)).Status == types.GROUP_STATUS_ROUND_3
+//@ ensures err == nil ==> old(has(Store_tss, types.MemberStoreKey(req.GroupID, req.Complaints[0].Complainant))) && old(memberAt(Store_tss, req.GroupID, req.Complaints[0].Complainant)).Address == req.Sender
+//@ ensures err == nil ==> !old(has(Store_tss, types.ConfirmStoreKey(req.GroupID, req.Complaints[0].Complainant))) && !old(has(Store_tss, types.ComplainsWithStatusStoreKey(req.GroupID, req.Complaints[0].Complainant)))
+//@ ensures err == nil ==> has(Store_tss, types.ComplainsWithStatusStoreKey(req.GroupID, req.Complaints[0].Complainant))
